@@ -186,6 +186,8 @@ def isolate(b0: int, b1: int, b2: int, cab: int, uab: int, when: int) -> bool:
         pass
     elif tpl in ('ws', 'ws_ctl'):
         adv.inq.append(scen.WS_HANDSHAKE)
+    elif tpl == 'silent':
+        pass        # the adversary connects and never sends a byte
     elif adv_at == 0:
         adv.inq.append(adversary_bytes(tpl, [b0, b1, b2]))
     second = CFG.get('second')
@@ -218,16 +220,23 @@ def isolate(b0: int, b1: int, b2: int, cab: int, uab: int, when: int) -> bool:
         exc = xk.step()
         if exc is not None:
             return fail('exception escaped the executor loop: every connection of this worker is dead', exc=repr(exc), step=i)
+    idle = CFG.get('idle')
+    if idle:
+        # everything on this worker has been silent for longer than --timeout when the periodic sweep runs
+        env.clock = env.clock + ex.flags.timeout + 1
     try:
         ex._cleanup_inactive()
     except Exception as e:
-        return fail('_cleanup_inactive raised', exc=repr(e))
+        return fail('_cleanup_inactive raised: the sweep runs inside the worker loop, every connection of this worker is dead', exc=repr(e))
     ccs = cst['cs']
     cus = cst.get('us')
     got = (ccs.out, cus.out if cus is not None else None, ccs.closed)
-    if got != alone:
+    if idle:
+        if not adv.closed or adv.fd in ex.works:
+            return fail('silent connection not reaped by the sweep')
+    elif got != alone:
         return fail('canary connection did not proceed as it does alone', got=repr(got)[:300], alone=repr(alone)[:300])
-    if not ccs.closed and ccs.fd not in ex.works:
+    if not idle and not ccs.closed and ccs.fd not in ex.works:
         return fail('canary dropped from the executor')
     if closer is not None:
         if (closer.out, closer.closed) != closer_alone:
@@ -285,6 +294,11 @@ def obligations(tier):
         for uab in (1, 2):
             add('fdreuse.%s.uab%d' % (tpl, uab), role='forward', tpl=tpl, cab=0, uab=uab, when=2, answer=True, fd_reuse=True, adv_stall=True)
             add('fdreuse.%s.uab%d.k4' % (tpl, uab), role='forward', tpl=tpl, cab=0, uab=uab, when=2, answer=True, fd_reuse=True, adv_stall=True, k=4)
+    # connections that simply go quiet (never a byte, or half a request) for longer than --timeout: the periodic sweep that reaps them runs
+    # inside the worker loop and must leave the worker alive for the connections that come afterwards
+    for role in ('forward', 'web'):
+        add('idle.%s.silent' % role, role=role, tpl='silent', cab=0, uab=0, when=2, idle=True)
+    add('idle.forward.truncated', role='forward', tpl='truncated', cab=0, uab=0, when=2, idle=True)
     # TLS-terminating listener: the handshake of a connection being admitted fails (the canary and the late connection handshake fine)
     for kind in ('sslerror', 'reset', 'eof', 'timeout', 'oserror', 'value'):
         add('admit.tls.%s' % kind, role='forward_tls', tpl='fwd_path', cab=0, uab=0, when=1, admit_fault=kind)
@@ -324,7 +338,7 @@ META = {
                  'client-side abort in {none, EOF, reset, EIO on recv, EPIPE on send}; upstream connect outcome in {ok, refused, timeout, '
                  'resolution failure, unreachable}; upstream abort in {EOF, reset, EIO, timeout} before/after answering; a second keep-alive '
                  'request on web/reverse connections; a TLS-terminating listener on which the adversary\'s handshake fails at admission in 6 ways; a websocket route: handshake followed by a frame with an arbitrary length/mask byte '
-                 '(truncated frames) or an arbitrary opcode byte; descriptor numbers reused lowest-first while an adversary that never drains its response loses its upstream; a call-count watchdog on the parser/frame/socket primitives turns a loop '
+                 '(truncated frames) or an arbitrary opcode byte; descriptor numbers reused lowest-first while an adversary that never drains its response loses its upstream; adversaries that go quiet (no byte at all, half a request) for longer than --timeout, reaped by the periodic sweep; a call-count watchdog on the parser/frame/socket primitives turns a loop '
                  'that makes no progress into a reported stall',
         'thorough': 'the same with 4 iterations',
     },
